@@ -473,10 +473,21 @@ def _get_Hamiltonian_from_couplings(model, sparse: bool, undo_sort_charge: bool)
     for s, terms in zip(term_list.strength, term_list.terms):
         last_site = -1
         t = eye_0
-        for op, i in terms:
+        # the term lists don't contain the operator strings *between* the sites of a term:
+        # a Jordan-Wigner string is needed on the sites in between if the operators further to the right are (in total) fermionic.
+        need_JW_right = [sites[i].op_needs_JW(op) for op, i in terms]
+        for n_op, (op, i) in enumerate(terms):
             sites_since_last_op = range(last_site + 1, i)
             if len(sites_since_last_op) > 0:
-                t = kron(t, np.eye(np.prod([dims[n] for n in sites_since_last_op])))
+                if last_site >= 0 and sum(need_JW_right[n_op:]) % 2 == 1:
+                    for n in sites_since_last_op:
+                        JW = sites[n].get_op('JW').to_ndarray()
+                        if undo_sort_charge:
+                            perm = inverse_permutation(sites[n].perm)
+                            JW = JW[np.ix_(perm, perm)]
+                        t = kron(t, JW)
+                else:
+                    t = kron(t, np.eye(np.prod([dims[n] for n in sites_since_last_op])))
             op = sites[i].get_op(op).to_ndarray()
             if undo_sort_charge:
                 perm = inverse_permutation(sites[i].perm)
